@@ -72,6 +72,9 @@ type propCheck struct {
 	ExtraKnown       []string
 	Samples   []any
 	Bounded   []string
+	replayCache map[string]replayResult
+	replays   map[*Obligation]replayResult
+	nReplayTried, nReplayConfirmed int
 }
 
 type extraViolation struct {
@@ -339,12 +342,31 @@ func (pc *propCheck) report(t0 time.Time) int {
 	}
 	exit := 0
 	replayDir := filepath.Join(verifDir, "replays", pc.ID)
+	os.RemoveAll(replayDir)
 	os.MkdirAll(replayDir, 0o755)
+	conOf := map[*Obligation]*Contract{}
+	for _, r := range pc.Results {
+		for _, o := range r.vc.obls {
+			conOf[o] = r.con
+		}
+	}
+	pc.replays = map[*Obligation]replayResult{}
 	for _, o := range violations {
 		exit = 1
+		if !o.MustFail && !o.Cover && o.Kind != "engine" {
+			model := pc.getModel(o)
+			rr := pc.replayLibrary(o, conOf[o], model)
+			pc.replays[o] = rr
+			if rr.Tried {
+				pc.nReplayTried++
+			}
+			if rr.Confirmed {
+				pc.nReplayConfirmed++
+			}
+		}
 		path := pc.writeReplay(replayDir, o, reasons[o])
 		suffix := ""
-		if !pc.replayHasInput(o) {
+		if !pc.replays[o].Confirmed {
 			suffix = " no-failing-input-found"
 		}
 		fmt.Printf("VIOLATION property=%s replay=%s obligation=%q%s\n", pc.ID, path, o.Name, suffix)
@@ -404,6 +426,8 @@ func (pc *propCheck) report(t0 time.Time) int {
 		"samples":                  samples,
 		"unchecked":                notes,
 		"engine_warnings":          warnings,
+		"replays_tried":            pc.nReplayTried,
+		"replays_confirmed":        pc.nReplayConfirmed,
 		"integers":                 "machine integers (64/32/16/8-bit vectors with wrap-around); no mathematical idealisation",
 	}
 	for k, v := range pc.Extra {
@@ -458,6 +482,13 @@ func (pc *propCheck) writeReplay(dir string, o *Obligation, reason string) strin
 	if o.Result != nil {
 		fmt.Fprintf(&b, "solver: %s status: %s time: %.3fs all: %v\n", o.Result.Solver, o.Result.Status, o.Result.Time, o.Result.All)
 		fmt.Fprintf(&b, "---- solver output ----\n%s\n", truncate(o.Result.Output, 20000))
+	}
+	if rr, ok := pc.replays[o]; ok && rr.Tried {
+		if rr.Confirmed {
+			fmt.Fprintf(&b, "---- replay on the real code: CONFIRMED ----\nfailing input: %s\ncommand (cwd %s, harness %s/replay): %s\n", rr.Detail, repoDir, verifDir, rr.Cmd)
+		} else {
+			fmt.Fprintf(&b, "---- replay on the real code: not reproduced by the scenario pool ----\ncommand: %s\n%s\n", rr.Cmd, truncate(rr.Output, 4000))
+		}
 	}
 	if o.File != "" {
 		// with a model if the solver said sat
